@@ -43,6 +43,7 @@ const (
 	FamBlocks
 	FamWide
 	FamManyFields // 130..300 field names: two-byte field ids
+	FamHuge       // > 65535 documents: document numbers span several roaring containers
 	FamMid        // 1..28 documents focused on one posting list (multi-chunk under fixed sizes), plus unique terms
 )
 
@@ -134,6 +135,17 @@ func GenLeaf(t *rapid.T, ctx *Ctx, sc *Scenario, cfg CaseCfg, label string) (*Se
 	case FamWide:
 		p := GenWide(t)
 		b, desc = p.Batch(sc), p.String()
+	case FamHuge:
+		p := GenWide(t)
+		p.N = rapid.SampledFrom([]int{65535, 65537, 66000, 70001}).Draw(t, "hugeN")
+		p.DenseExact, p.GapField = 0, 0
+		if rapid.Bool().Draw(t, "hugeGap") {
+			p.GapField = rapid.SampledFrom([]int{65536, 65000, 66000}).Draw(t, "hugeGapStart")
+			if p.GapField >= p.N {
+				p.GapField = p.N - 2
+			}
+		}
+		b, desc = p.Batch(sc), p.String()
 	case FamManyFields:
 		b = GenBatchManyFields(t, sc)
 		desc = b[1:].String() + fmt.Sprintf(" (+doc0 defining %d fields)", len(b[0].Fields))
@@ -145,7 +157,7 @@ func GenLeaf(t *rapid.T, ctx *Ctx, sc *Scenario, cfg CaseCfg, label string) (*Se
 		desc = b.String()
 	}
 	modes := ChunkModes
-	if cfg.Family == FamWide {
+	if cfg.Family == FamWide || cfg.Family == FamHuge {
 		modes = []uint32{1025, 1025, 1024, 100, 7}
 	}
 	mode := rapid.SampledFrom(modes).Draw(t, label+":mode")
@@ -335,7 +347,7 @@ func GenMerge(t *rapid.T, ctx *Ctx, sc *Scenario, cfg CaseCfg, depth int, label 
 		drops[i] = GenDrops(t, ins[i].Exp.N, fmt.Sprintf("%s.%d", label, i))
 	}
 	modes := ChunkModes
-	if cfg.Family == FamWide {
+	if cfg.Family == FamWide || cfg.Family == FamHuge {
 		modes = []uint32{1025, 1025, 1024, 100, 7}
 	}
 	mode := rapid.SampledFrom(modes).Draw(t, label+":outMode")
